@@ -48,12 +48,12 @@ theorem emitModSib_index_parts (c : Model.X86.Ctx) (pre : List (BitVec 8)) (ao :
     split <;> simp_all
 
 /-- model-side `[base64 + index64 * 2^sh + disp]` operand -/
-def memBaseIndex (size : Nat) (rb rx : BitVec 32) (sh : Nat) (d : BitVec 64) (seg : Nat := 0) (a32 : Bool := false) : Mem :=
-  { size := size, baseType := (if a32 then 5 else 6), baseId := rb.toNat, indexType := (if a32 then 5 else 6), indexId := rx.toNat, shift := sh, offset := d, seg := seg, bcst := 0, addrType := 0 }
+def memBaseIndex (size : Nat) (rb rx : BitVec 32) (sh : Nat) (d : BitVec 64) (seg : Nat := 0) (a32 : Bool := false) (bc : Nat := 0) : Mem :=
+  { size := size, baseType := (if a32 then 5 else 6), baseId := rb.toNat, indexType := (if a32 then 5 else 6), indexId := rx.toNat, shift := sh, offset := d, seg := seg, bcst := bc, addrType := 0 }
 
 /-- spec-side operand -/
-def memOpBaseIndex (size : Nat) (rb rx : BitVec 32) (sh : Nat) (d : BitVec 64) (seg : Nat := 0) (a32 : Bool := false) : MemOp :=
-  { size := size, baseKind := (if a32 then .gpd else .gpq), baseId := rb.toNat, indexKind := (if a32 then .gpd else .gpq), indexId := rx.toNat, shift := sh, disp := d, seg := seg, bcst := 0, addrType := 0 }
+def memOpBaseIndex (size : Nat) (rb rx : BitVec 32) (sh : Nat) (d : BitVec 64) (seg : Nat := 0) (a32 : Bool := false) (bc : Nat := 0) : MemOp :=
+  { size := size, baseKind := (if a32 then .gpd else .gpq), baseId := rb.toNat, indexKind := (if a32 then .gpd else .gpq), indexId := rx.toNat, shift := sh, disp := d, seg := seg, bcst := bc, addrType := 0 }
 
 theorem memInfo_gp64_gp64 : memInfo 6 6 = 0x0F#32 := by decide
 theorem memInfo_gp32_gp32 : memInfo 5 5 = 0x8F#32 := by decide
@@ -123,11 +123,11 @@ theorem idxSib_factsBV (sh : Nat) (x7 b7 : BitVec 32) (hsh : sh < 4) (hx : x7 < 
 /-- the monitor's memory check on the index form's parts -/
 theorem idxParts_checkMem (ctx : Spec.X86.Ctx) (rule : Rule) (p : Parsed) (o7 rb rx s : BitVec 32) (size sh : Nat) (d : BitVec 64)
     (hm64 : ctx.mode64 = true) (ho : o7 < 8#32) (hb : rb < 16#32) (hx : rx < 16#32) (hx4 : rx ≠ 4#32) (hsh : sh < 4) (hs6 : s ≤ 6#32)
-    (seg : Nat) (a32 : Bool) (pfx : List (BitVec 8)) (h67 : pfx.contains 0x67#8 = a32)
+    (seg : Nat) (a32 : Bool) (bc : Nat) (pfx : List (BitVec 8)) (h67 : pfx.contains 0x67#8 = a32)
     (F : MemFields p pfx (idxMb o7 (memVariant (rb &&& 7#32) (d.truncate 32) s)) (some (idxSib (BitVec.ofNat 32 sh) (rx &&& 7#32) (rb &&& 7#32)))
            (memDisp (d.truncate 32) s (memVariant (rb &&& 7#32) (d.truncate 32) s)) (rb.getLsbD 3) (rx.getLsbD 3))
     (hN : (if p.vexKind == 4 then disp8N rule p else 1) = 2 ^ s.toNat) :
-    checkMem ctx rule p (memOpBaseIndex size rb rx sh d seg a32) = .ok () := by
+    checkMem ctx rule p (memOpBaseIndex size rb rx sh d seg a32 bc) = .ok () := by
   obtain ⟨hpm, hps, hpd, hpv, hpp, hpa, hpB, hpX⟩ := F
   have hr7 : rb &&& 7#32 < 8#32 := by bv_decide
   have hx7 : rx &&& 7#32 < 8#32 := by bv_decide
@@ -145,7 +145,7 @@ theorem idxParts_checkMem (ctx : Spec.X86.Ctx) (rule : Rule) (p : Parsed) (o7 rb
   have hmodne : bits (idxMb o7 v) 6 2 ≠ 3 := by rw [fmod]; omega
   have hbaseNum := regNum_base rb hb p.B hpB
   have hidxNum := regNum_base rx hx p.X hpX
-  refine checkMem_index64 ctx rule p (memOpBaseIndex size rb rx sh d seg a32) _ _ a32 hm64 (by rw [hpp]; exact h67) hpa hpm hmodne rfl rfl hps ?_ ?_ ?_ ?_ ?_ ?_
+  refine checkMem_index64 ctx rule p (memOpBaseIndex size rb rx sh d seg a32 bc) _ _ a32 hm64 (by rw [hpp]; exact h67) hpa hpm hmodne rfl rfl hps ?_ ?_ ?_ ?_ ?_ ?_
   · intro ⟨h0, h5⟩
     rw [fmod] at h0
     rw [fsb] at h5
@@ -160,7 +160,7 @@ theorem idxParts_checkMem (ctx : Spec.X86.Ctx) (rule : Rule) (p : Parsed) (o7 rb
   · exact fsc
   · show decodedDisp rule p = _
     simp only [decodedDisp, hpd, hpv, hN]
-    have : (memOpBaseIndex size rb rx sh d seg a32).disp.toNat % 2 ^ 32 = (d.truncate 32 : BitVec 32).toNat := by simp [memOpBaseIndex, BitVec.toNat_setWidth]
+    have : (memOpBaseIndex size rb rx sh d seg a32 bc).disp.toNat % 2 ^ 32 = (d.truncate 32 : BitVec 32).toNat := by simp [memOpBaseIndex, BitVec.toNat_setWidth]
     rw [this]
     exact hmd
 
@@ -237,18 +237,18 @@ theorem addrForm_index (c : Model.X86.Ctx) (ctx : Spec.X86.Ctx) (rb rx aaa : Bit
     have h3 : (xbOf rb rx).getLsbD 3 = rb.getLsbD 3 := by simp only [xbOf]; bv_decide
     have h4 : (xbOf rb rx).getLsbD 4 = rx.getLsbD 3 := by simp only [xbOf]; bv_decide
     rw [h3, h4] at F
-    exact idxParts_checkMem ctx rule p o7 rb rx s size sh d hm64 ho hb hx hx4 hsh hs6 seg a32 _ h67 F hN
+    exact idxParts_checkMem ctx rule p o7 rb rx s size sh d hm64 ho hb hx hx4 hsh hs6 seg a32 0 _ h67 F hN
   · intro opcode reg vvvvv z imm n hr hv hxop
     exact emitVexEvexM_index_bytes c opcode reg vvvvv rb rx aaa z size sh d imm n seg a32 hm hpe hk hvs hr hv hb hx hx4 ha hxop
 
 /-! ### `[rip + disp32]` -/
 
 /-- model-side `[rip + disp]` operand (base type PC, register id 0 as `x86::rip`) -/
-def memRip (size : Nat) (d : BitVec 64) (seg : Nat := 0) : Mem :=
-  { size := size, baseType := 31, baseId := 0, indexType := 0, indexId := 0, shift := 0, offset := d, seg := seg, bcst := 0, addrType := 0 }
+def memRip (size : Nat) (d : BitVec 64) (seg : Nat := 0) (bc : Nat := 0) : Mem :=
+  { size := size, baseType := 31, baseId := 0, indexType := 0, indexId := 0, shift := 0, offset := d, seg := seg, bcst := bc, addrType := 0 }
 
-def memOpRip (size : Nat) (d : BitVec 64) (seg : Nat := 0) : MemOp :=
-  { size := size, baseKind := .rip, baseId := 0, indexKind := .none, indexId := 0, shift := 0, disp := d, seg := seg, bcst := 0, addrType := 0 }
+def memOpRip (size : Nat) (d : BitVec 64) (seg : Nat := 0) (bc : Nat := 0) : MemOp :=
+  { size := size, baseKind := .rip, baseId := 0, indexKind := .none, indexId := 0, shift := 0, disp := d, seg := seg, bcst := bc, addrType := 0 }
 
 theorem memInfo_rip : memInfo 31 0 = 0x2C#32 := by decide
 
